@@ -325,6 +325,9 @@ func jacRuns(out func(*runRec), trace bool, seed int64, procs []int) {
 					}
 					rr.Ev = append(rr.Ev, o)
 				}
+				if len(rr.Ev) == 0 {
+					rr.Kind = "serial" // computeWorkers chose the serial path
+				}
 				out(rr)
 			}
 		}
